@@ -114,6 +114,15 @@ func fenceOnce(timeout time.Duration) bool {
 	}
 }
 
+// loopRun posts f to the event loop and pokes the loop so that it runs soon (f runs ON the loop goroutine).
+func loopRun(f func()) {
+	fenceInit()
+	defaultDispatcher.post(f)
+	pokeMu.Lock()
+	_, _ = syscall.Write(pokeFd, []byte{1})
+	pokeMu.Unlock()
+}
+
 // fence: two rounds (a lambda posted while the loop is between epoll_wait and runLambda may run before the
 // loop looks at the sockets again; after the second round everything that had arrived on any event
 // connection before the call has been handled). Returns false on watchdog time-out.
